@@ -169,6 +169,13 @@ def values(rng, dtype, n, vclass="small"):
         lo = max(int(ii.min), -100)
         hi = min(int(ii.max), 100)
         return np.array([rng.randint(lo, hi) for _ in range(n)], dtype=dt)
+    if dt.kind == "c":
+        # complex: real and imaginary parts from the float class of the same name (parts of the matching precision)
+        part = {8: "float32", 16: "float64"}.get(dt.itemsize, "float64")
+        re_, im_ = values(rng, part, n, vclass), values(rng, part, n, vclass)
+        return (re_.astype(dt) + 1j * im_.astype(dt) if vclass not in ("nonfinite",) else np.array([complex(a, b) for a, b in zip(re_.tolist(), im_.tolist())], dtype=dt)).astype(dt)
+    if dt.kind == "f" and dt.itemsize > 8:
+        return values(rng, "float64", n, vclass).astype(dt)       # extended precision: the float64 classes, widened
     # floats
     if vclass == "decimal":
         # values that are not exactly representable / of very different magnitude: anything that re-derives them by arithmetic (differences, prefix sums) gets them wrong
